@@ -220,10 +220,56 @@ def outcome(fn):
         return False
 
 
+def stored_and_evicted(ctx, rng):
+    """valid trees that live in a database, with all or some of their nodes evicted (ghosts): accepted too"""
+    import BTrees.check
+    import random as _r
+    from harness.minijar import Storage, Jar
+    from harness.props.c16 import all_nodes
+    from harness.props.c04 import f16_condition
+    n = 0
+    for it in range(ctx.n(40, 800)):
+        kind = rng.choice(["BTree", "TreeSet"])
+        fn = rng.choice(ALL_FAMS)
+        impl = rng.choice(["C", "C", "Py"])
+        ml, mi = rng.choice([(2, 2), (2, 3), (3, 3)])
+        env = TreeEnv(fn, kind, impl, "int" if fn[0] == "O" else None)
+        with env.sized(ml, mi):
+            t = env.new()
+            for k in rng.sample(range(80), rng.randint(8, 40)):
+                env.call(t, ("add", k) if env.setlike else ("set", k, k % 4))
+            if f16_condition(env, t):
+                continue
+            jar = Jar(Storage())
+            jar.add(t)
+            jar.commit()
+            nodes = all_nodes(t)
+            mode = rng.choice(["all", "some", "some"])
+            if mode == "all":
+                jar.minimize()
+            else:
+                for o in rng.sample(nodes, max(1, len(nodes) // 2)):
+                    o._p_deactivate()
+            for name, fn_ in (("_check", t._check), ("check", lambda: BTrees.check.check(t))):
+                if mode != "all":
+                    for o in rng.sample(nodes, max(1, len(nodes) // 3)):
+                        o._p_deactivate()
+                try:
+                    fn_()
+                except AssertionError as e:
+                    ctx.oracle_failure("%s:valid-tree-rejected:%s:evicted-nodes" % (impl, name), "%s%s/%s sizes=(%d,%d), %d nodes, stored and %s evicted: %s() rejects it: %s" % (
+                        fn, kind, impl, ml, mi, len(nodes), mode, name, str(e)[:80]), {"family": fn, "kind": kind, "impl": impl, "sizes": [ml, mi]})
+                    break
+            n += 1
+            ctx.count(("evicted", fn, kind, impl, ml, mi, it))
+    ctx.cov["stored_trees_checked_with_evicted_nodes"] = n
+
+
 def run(ctx):
     import BTrees.check
     import random as _r
     rng = ctx.rng
+    stored_and_evicted(ctx, rng)
     ntrees = ctx.n(60, 1500)
     percor = ctx.n(40, 200)
     terms, meta = [], []
